@@ -256,7 +256,7 @@ def body_bytes(kind, idx):
 
 
 SHAPES = ('canon', 'nospace', 'lf', 'folded', 'empty', 'long', 'wide', 'noreason', 'foldedblank', 'nocolon', 'hibyte', 'huge', 'tabfold',
-          'ctnosemi', 'ctspace', 'ctodd')
+          'ctnosemi', 'ctspace', 'ctodd', 'line4098', 'line4097', 'line8194')
 
 
 def response_wire(shape, body, idx):
@@ -313,6 +313,15 @@ def response_wire(shape, body, idx):
         h = (b'HTTP/1.1 200 OK\r\nContent-Type: application/vnd.x.y+xml;\r\n  title="a b c" ; q=1\r\n'
              b'Content-Length: %d\r\n\r\n' % n)
         return h, body, 200, 'application/vnd.x.y+xml'
+    if shape in ('line4098', 'line4097', 'line8194'):
+        # one header line whose length (line end included) is a multiple of 4096 plus 2 / plus 1: a reader that takes
+        # lines in 4096-byte pieces sees a last piece that is just the line end
+        total = int(shape[4:])
+        name = b'X-Long: '
+        line = name + b'a' * (total - len(name) - 2) + b'\r\n'
+        assert len(line) == total
+        h = b'HTTP/1.1 200 OK\r\n' + line + b'Content-Type: text/x-long\r\nContent-Length: %d\r\n\r\n' % n
+        return h, body, 200, 'text/x-long'
     if shape == 'empty':
         return b'HTTP/1.1 200 OK\r\n\r\n', body, 200, '-'
     if shape == 'long':
